@@ -78,12 +78,64 @@ Qed.
    Copies of krun / remaining / main_iter / main_loop / tail_loop / streamed (Model/Join.v) that
    thread counters and are otherwise identical; `*_erase` lemmas below show that dropping the
    counters gives back the model functions. *)
-Fixpoint krun_cnt (fuel:nat) (k:kind) (emit:bool) (p:kparams) (s:fsm) (n:nat) : res (fsm * nat) :=
+(* run_len with a counter of executed loop bodies *)
+Fixpoint run_len_cnt (fuel:nat) (site:Z) (a:list Z) (k kmax cnt:Z) (n:nat) : res (Z * nat) :=
   match fuel with
   | O => OutOfFuel
   | S f =>
-    do o <- kstep k emit p s;
-    match o with None => Ok (s, n) | Some s' => krun_cnt f k emit p s' (S n) end
+    if k + 1 <? kmax then
+      do x <- get site a (k + 1);
+      do y <- get site a k;
+      if x =? y then run_len_cnt f site a (k + 1) kmax (cnt + 1) (S n) else Ok (cnt, n)
+    else Ok (cnt, n)
+  end.
+
+(* step_gen, also returning the number of loop bodies of its two inner run-length scans *)
+Definition step_gen_cnt (emit:bool) (p:kparams) (s:fsm) : res (option (fsm * nat)) :=
+  if (fi s <? ki_max p) && (fj s <? kj_max p) && (fr s <? len (lres s)) then
+    if negb (finner s) then
+      do a <- get 1 (kleft p) (fi s);
+      do b <- get 2 (kright p) (fj s);
+      if a <? b then
+        if emit then
+          do l' <- set 3 (lres s) (fr s) (fi s + ki_off p);
+          do r' <- set 4 (rres s) (fr s) (kinv p);
+          Ok (Some (upd_ijr s (fi s + 1) (fj s) (fr s + 1) l' r', O))
+        else Ok (Some (upd_ijr s (fi s + 1) (fj s) (fr s) (lres s) (rres s), O))
+      else if b <? a then
+        Ok (Some (upd_ijr s (fi s) (fj s + 1) (fr s) (lres s) (rres s), O))
+      else
+        do ci <- run_len_cnt (S (length (kleft p))) 5 (kleft p) (fi s) (ki_max p) 1 0;
+        do cj <- run_len_cnt (S (length (kright p))) 6 (kright p) (fj s) (kj_max p) 1 0;
+        Ok (Some (mkfsm (fi s) (fj s) (fr s) 0 0 (fst ci) (fst cj) true (lres s) (rres s), (snd ci + snd cj)%nat))
+    else
+      do l' <- set 7 (lres s) (fr s) (ki_off p + fi s + fii s);
+      do r' <- set 8 (rres s) (fr s) (kj_off p + fj s + fjj s);
+      let jj1 := fjj s + 1 in
+      if jj1 =? fjjmax s then
+        let ii1 := fii s + 1 in
+        if ii1 =? fiimax s then
+          Ok (Some (mkfsm (fi s + fiimax s) (fj s + fjjmax s) (fr s + 1) 0 0 (-1) (-1) false l' r', O))
+        else
+          Ok (Some (mkfsm (fi s) (fj s) (fr s + 1) ii1 0 (fiimax s) (fjjmax s) true l' r', O))
+      else
+        Ok (Some (mkfsm (fi s) (fj s) (fr s + 1) (fii s) jj1 (fiimax s) (fjjmax s) true l' r', O))
+  else Ok None.
+
+(* the unique-side kernels have no inner loop *)
+Definition kstep_cnt (k:kind) (emit:bool) (p:kparams) (s:fsm) : res (option (fsm * nat)) :=
+  match k with
+  | KGen => step_gen_cnt emit p s
+  | _ => do o <- kstep k emit p s; Ok (option_map (fun s' => (s', O)) o)
+  end.
+
+(* n = loop bodies of the kernel's while loop, m = loop bodies of the run-length scans inside them *)
+Fixpoint krun_cnt (fuel:nat) (k:kind) (emit:bool) (p:kparams) (s:fsm) (n m:nat) : res (fsm * (nat * nat)) :=
+  match fuel with
+  | O => OutOfFuel
+  | S f =>
+    do o <- kstep_cnt k emit p s;
+    match o with None => Ok (s, (n, m)) | Some (s', c) => krun_cnt f k emit p s' (S n) (m + c) end
   end.
 
 Fixpoint remaining_cnt (fuel:nat) (both:bool) (i_max i_off inv:Z) (s:fsm) (n:nat) : res (fsm * nat) :=
@@ -97,11 +149,11 @@ Fixpoint remaining_cnt (fuel:nat) (both:bool) (i_max i_off inv:Z) (s:fsm) (n:nat
     else Ok (s, n)
   end.
 
-(* one main-loop iteration; also returns the number of kernel loop bodies it executed *)
-Definition main_iter_cnt (v:variant) (L R:list Z) (inv cs:Z) (d:drv) : res (option (drv * nat)) :=
+(* one main-loop iteration; also returns the numbers of kernel / scan loop bodies it executed *)
+Definition main_iter_cnt (v:variant) (L R:list Z) (inv cs:Z) (d:drv) : res (option (drv * (nat * nat))) :=
   if (fi (df d) + i_off_ d <? len L) && (fj (df d) + j_off_ d <? len R) then
     let p := mkkp (left_ d) (i_max_ d) (right_ d) (j_max_ d) inv (i_off_ d) (j_off_ d) in
-    do sn <- krun_cnt (kfuel d cs) (v_kind v) (v_left v) p (df d) 0;
+    do sn <- krun_cnt (kfuel d cs) (v_kind v) (v_left v) p (df d) 0 0;
     let s := fst sn in
     do d1 <- (if (i_off_ d + fi s <? len L) && (snd (lch d) - fst (lch d) <=? fi s) then
                 do c <- fetch_chunk (v_ltrim v) (snd (lch d)) cs L;
@@ -118,16 +170,16 @@ Definition main_iter_cnt (v:variant) (L R:list Z) (inv cs:Z) (d:drv) : res (opti
     Ok (Some (flush (v_writes_l v) d2, snd sn))
   else Ok None.
 
-(* it = kernel calls so far (= completed iterations), ks = kernel loop bodies so far *)
-Fixpoint main_loop_cnt (fuel:nat) (v:variant) (L R:list Z) (inv cs:Z) (d:drv) (it ks:nat)
-  : res (drv * (nat * nat)) :=
+(* it = kernel calls so far (= completed iterations), ks = kernel loop bodies so far, sc = scan loop bodies so far *)
+Fixpoint main_loop_cnt (fuel:nat) (v:variant) (L R:list Z) (inv cs:Z) (d:drv) (it ks sc:nat)
+  : res (drv * (nat * nat * nat)) :=
   match fuel with
   | O => OutOfFuel
   | S fu =>
     do o <- main_iter_cnt v L R inv cs d;
     match o with
-    | None => Ok (d, (it, ks))
-    | Some (d', n) => main_loop_cnt fu v L R inv cs d' (S it) (ks + n)
+    | None => Ok (d, (it, ks, sc))
+    | Some (d', (n, m)) => main_loop_cnt fu v L R inv cs d' (S it) (ks + n) (sc + m)
     end
   end.
 
@@ -150,6 +202,7 @@ Fixpoint tail_loop_cnt (fuel:nat) (v:variant) (L:list Z) (inv cs:Z) (d:drv) (it 
 Record counts := mkcounts {
   c_calls : nat;     (* kernel calls = completed main-loop iterations *)
   c_ksteps : nat;    (* loop bodies executed by the *_partial kernel, summed over all calls *)
+  c_scan : nat;      (* loop bodies of the run-length scans inside those bodies (general kernels only) *)
   c_tail : nat;      (* completed tail-loop iterations (to_left variants) *)
   c_rsteps : nat }.  (* loop bodies executed by the *_remaining kernel, summed over all calls *)
 
@@ -160,18 +213,133 @@ Definition streamed_cnt (v:variant) (L R:list Z) (inv cs:Z) : res ((list Z * lis
   let s0 := mkfsm 0 0 0 0 0 (-1) (-1) false buf buf in
   let d0 := mkdrv s0 (fst lc) (snd lc) (snd (fst lc) - fst (fst lc)) (fst (fst lc))
                   (fst rc) (snd rc) (snd (fst rc) - fst (fst rc)) (fst (fst rc)) [] [] in
-  do x1 <- main_loop_cnt (driver_fuel L R) v L R inv cs d0 0 0;
+  do x1 <- main_loop_cnt (driver_fuel L R) v L R inv cs d0 0 0 0;
   do x2 <- (if v_left v then tail_loop_cnt (S (S (length L))) v L inv cs (fst x1) 0 0 else Ok (fst x1, (O, O)));
   Ok ((outl (fst x2), outr (fst x2)),
-      mkcounts (fst (snd x1)) (snd (snd x1)) (fst (snd x2)) (snd (snd x2))).
+      mkcounts (fst (fst (snd x1))) (snd (fst (snd x1))) (snd (snd x1)) (fst (snd x2)) (snd (snd x2))).
 
 (* ---- erasure: dropping the counters gives the model functions *)
-Lemma krun_cnt_erase : forall fuel k emit p s n,
-  krun fuel k emit p s = do x <- krun_cnt fuel k emit p s n; Ok (fst x).
+Lemma run_len_cnt_erase : forall fuel site a k kmax cnt n,
+  run_len fuel site a k kmax cnt = do x <- run_len_cnt fuel site a k kmax cnt n; Ok (fst x).
 Proof.
-  induction fuel as [|fuel IH]; intros k emit p s n; cbn [krun krun_cnt]; [reflexivity|].
-  destruct (kstep k emit p s) as [o| | |]; cbn [bind]; try reflexivity.
-  destruct o; [apply IH|reflexivity].
+  induction fuel as [|fuel IH]; intros site a k kmax cnt n; cbn [run_len run_len_cnt]; [reflexivity|].
+  destruct (k + 1 <? kmax); [|reflexivity].
+  destruct (get site a (k + 1)) as [x| | |]; cbn [bind]; try reflexivity.
+  destruct (get site a k) as [y| | |]; cbn [bind]; try reflexivity.
+  destruct (x =? y); [apply IH|reflexivity].
+Qed.
+
+Ltac dres := repeat (cbn [bind fst snd option_map]; try reflexivity;
+  match goal with
+  | |- bind ?X _ = bind (bind ?X _) _ => destruct X as [?| | |]
+  | |- (if ?b then _ else _) = _ => destruct b
+  | |- (let _ := _ in _) = _ => cbv zeta
+  end).
+
+Lemma step_gen_cnt_erase emit p s :
+  step_gen emit p s = do o <- step_gen_cnt emit p s; Ok (option_map fst o).
+Proof.
+  unfold step_gen, step_gen_cnt.
+  destruct ((fi s <? ki_max p) && (fj s <? kj_max p) && (fr s <? len (lres s))); [|reflexivity].
+  destruct (negb (finner s)).
+  - destruct (get 1 (kleft p) (fi s)) as [a| | |]; cbn [bind]; try reflexivity.
+    destruct (get 2 (kright p) (fj s)) as [b| | |]; cbn [bind]; try reflexivity.
+    destruct (a <? b); [dres|]. destruct (b <? a); [reflexivity|].
+    rewrite (run_len_cnt_erase _ 5 _ _ _ _ 0%nat), (run_len_cnt_erase _ 6 _ _ _ _ 0%nat).
+    destruct (run_len_cnt (S (length (kleft p))) 5 (kleft p) (fi s) (ki_max p) 1 0) as [[ci ni]| | |];
+      cbn [bind fst snd]; try reflexivity.
+    destruct (run_len_cnt (S (length (kright p))) 6 (kright p) (fj s) (kj_max p) 1 0) as [[cj nj]| | |];
+      cbn [bind fst snd]; reflexivity.
+  - dres.
+Qed.
+
+Lemma kstep_cnt_erase k emit p s :
+  kstep k emit p s = do o <- kstep_cnt k emit p s; Ok (option_map fst o).
+Proof.
+  destruct k; cbn [kstep kstep_cnt]; [apply step_gen_cnt_erase| | |];
+    match goal with |- ?X = _ => destruct X as [[s'|]| | |]; reflexivity end.
+Qed.
+
+Lemma kstep_cnt_none k emit p s : kstep k emit p s = Ok None -> kstep_cnt k emit p s = Ok None.
+Proof.
+  rewrite kstep_cnt_erase. destruct (kstep_cnt k emit p s) as [[[s' c]|]| | |]; cbn; congruence.
+Qed.
+
+Lemma kstep_cnt_some k emit p s s1 : kstep k emit p s = Ok (Some s1) ->
+  exists c, kstep_cnt k emit p s = Ok (Some (s1, c)).
+Proof.
+  rewrite kstep_cnt_erase. destruct (kstep_cnt k emit p s) as [[[s' c]|]| | |]; cbn; try congruence.
+  intros H. injection H as ->. exists c. reflexivity.
+Qed.
+
+Lemma krun_cnt_erase : forall fuel k emit p s n m,
+  krun fuel k emit p s = do x <- krun_cnt fuel k emit p s n m; Ok (fst x).
+Proof.
+  induction fuel as [|fuel IH]; intros k emit p s n m; cbn [krun krun_cnt]; [reflexivity|].
+  rewrite kstep_cnt_erase.
+  destruct (kstep_cnt k emit p s) as [o| | |]; cbn [bind]; try reflexivity.
+  destruct o as [[s' c]|]; cbn [option_map fst]; [apply IH|reflexivity].
+Qed.
+
+(* ---- the cost of the run-length scans is paid for by the rows of the block they open:
+   phi = number of rows the current inner (cartesian) block still has to emit *)
+Definition phi (s:fsm) : Z := if finner s then (fiimax s - fii s) * fjjmax s - fjj s else 0.
+
+Lemma run_len_cnt_steps : forall fuel site a k kmax cnt n c' n',
+  run_len_cnt fuel site a k kmax cnt n = Ok (c', n') ->
+  (n <= n')%nat /\ c' - cnt = Z.of_nat n' - Z.of_nat n.
+Proof.
+  induction fuel as [|fuel IH]; intros site a k kmax cnt n c' n' E; cbn [run_len_cnt] in E; [discriminate|].
+  destruct (k + 1 <? kmax); [|injection E as <- <-; lia].
+  destruct (get site a (k + 1)) as [x| | |]; cbn [bind] in E; try discriminate.
+  destruct (get site a k) as [y| | |]; cbn [bind] in E; try discriminate.
+  destruct (x =? y); [apply IH in E; lia|injection E as <- <-; lia].
+Qed.
+
+Ltac crack H := repeat (cbn [bind] in H;
+  match type of H with
+  | bind ?X _ = _ => destruct X as [?| | |] eqn:?; try discriminate H
+  | (if ?b then _ else _) = _ => destruct b eqn:?; try discriminate H
+  | (let _ := _ in _) = _ => cbv zeta in H
+  end).
+
+Ltac phi_leaf H := injection H as <- <-; unfold phi; cbn [upd_ijr finner fiimax fii fjjmax fjj fr Z.of_nat]; try lia.
+
+Lemma step_gen_cnt_cost emit p s s' c : step_gen_cnt emit p s = Ok (Some (s', c)) ->
+  Z.of_nat c + phi s <= (fr s' - fr s) + phi s'.
+Proof.
+  unfold step_gen_cnt. intros H.
+  destruct ((fi s <? ki_max p) && (fj s <? kj_max p) && (fr s <? len (lres s))); [|discriminate].
+  destruct (finner s) eqn:Einn; cbn [negb] in H.
+  - (* inner state: one row emitted, one row less to go *)
+    crack H; phi_leaf H; rewrite Einn; nia.
+  - destruct (get 1 (kleft p) (fi s)) as [a| | |]; cbn [bind] in H; try discriminate.
+    destruct (get 2 (kright p) (fj s)) as [b| | |]; cbn [bind] in H; try discriminate.
+    destruct (a <? b); [crack H; phi_leaf H; rewrite Einn; lia|].
+    destruct (b <? a); [phi_leaf H; rewrite Einn; lia|].
+    destruct (run_len_cnt (S (length (kleft p))) 5 (kleft p) (fi s) (ki_max p) 1 0) as [[ci ni]| | |] eqn:Ei;
+      cbn [bind fst snd] in H; try discriminate.
+    destruct (run_len_cnt (S (length (kright p))) 6 (kright p) (fj s) (kj_max p) 1 0) as [[cj nj]| | |] eqn:Ej;
+      cbn [bind fst snd] in H; try discriminate.
+    apply run_len_cnt_steps in Ei, Ej. phi_leaf H. nia.
+Qed.
+
+Lemma upd_ijr_cost s i j r l' r' : fr s <= r -> phi s <= (fr (upd_ijr s i j r l' r') - fr s) + phi (upd_ijr s i j r l' r').
+Proof. intros H. unfold phi. cbn [upd_ijr finner fiimax fii fjjmax fjj fr]. lia. Qed.
+
+Lemma kstep_cnt_cost k emit p s s' c : kstep_cnt k emit p s = Ok (Some (s', c)) ->
+  Z.of_nat c + phi s <= (fr s' - fr s) + phi s'.
+Proof.
+  destruct k; cbn [kstep_cnt kstep]; [apply step_gen_cnt_cost| | |]; intros H.
+  - destruct (step_lu emit p s) as [[s1|]| | |] eqn:E; cbn [bind option_map] in H; try discriminate.
+    injection H as <- <-. cbn [Z.of_nat Z.add]. unfold step_lu in E. cbv zeta in E.
+    crack E; injection E as <-; apply upd_ijr_cost; lia.
+  - destruct (step_ru emit p s) as [[s1|]| | |] eqn:E; cbn [bind option_map] in H; try discriminate.
+    injection H as <- <-. cbn [Z.of_nat Z.add]. unfold step_ru in E. cbv zeta in E.
+    crack E; injection E as <-; apply upd_ijr_cost; lia.
+  - destruct (step_bu emit p s) as [[s1|]| | |] eqn:E; cbn [bind option_map] in H; try discriminate.
+    injection H as <- <-. cbn [Z.of_nat Z.add]. unfold step_bu in E. cbv zeta in E.
+    crack E; injection E as <-; apply upd_ijr_cost; lia.
 Qed.
 
 Lemma remaining_cnt_erase : forall fuel both i_max i_off inv s n,
@@ -189,21 +357,21 @@ Lemma main_iter_cnt_erase v L R inv cs d :
 Proof.
   unfold main_iter, main_iter_cnt.
   destruct ((fi (df d) + i_off_ d <? len L) && (fj (df d) + j_off_ d <? len R)); [|reflexivity].
-  cbv zeta. rewrite (krun_cnt_erase _ _ _ _ _ 0%nat).
+  cbv zeta. rewrite (krun_cnt_erase _ _ _ _ _ 0%nat 0%nat).
   destruct (krun_cnt (kfuel d cs) (v_kind v) (v_left v)
-              (mkkp (left_ d) (i_max_ d) (right_ d) (j_max_ d) inv (i_off_ d) (j_off_ d)) (df d) 0) as [[s n]| | |];
+              (mkkp (left_ d) (i_max_ d) (right_ d) (j_max_ d) inv (i_off_ d) (j_off_ d)) (df d) 0 0) as [[s n]| | |];
     cbn [bind fst snd]; try reflexivity.
   match goal with |- bind ?X _ = bind (bind ?X _) _ => destruct X as [d1| | |] end; cbn [bind]; try reflexivity.
   match goal with |- bind ?X _ = bind (bind ?X _) _ => destruct X as [d2| | |] end; cbn [bind]; reflexivity.
 Qed.
 
-Lemma main_loop_cnt_erase v L R inv cs : forall fuel d it ks,
-  main_loop fuel v L R inv cs d = do x <- main_loop_cnt fuel v L R inv cs d it ks; Ok (fst x).
+Lemma main_loop_cnt_erase v L R inv cs : forall fuel d it ks sc,
+  main_loop fuel v L R inv cs d = do x <- main_loop_cnt fuel v L R inv cs d it ks sc; Ok (fst x).
 Proof.
-  induction fuel as [|fuel IH]; intros d it ks; cbn [main_loop main_loop_cnt]; [reflexivity|].
+  induction fuel as [|fuel IH]; intros d it ks sc; cbn [main_loop main_loop_cnt]; [reflexivity|].
   rewrite main_iter_cnt_erase.
   destruct (main_iter_cnt v L R inv cs d) as [o| | |]; cbn [bind]; try reflexivity.
-  destruct o as [[d' n]|]; cbn [option_map fst]; [apply IH|reflexivity].
+  destruct o as [[d' [n m]]|]; cbn [option_map fst]; [apply IH|reflexivity].
 Qed.
 
 Lemma tail_loop_cnt_erase v L inv cs : forall fuel d it rs,
@@ -223,7 +391,7 @@ Proof.
   unfold streamed, streamed_cnt.
   destruct (fetch_chunk (v_ltrim v) 0 cs L) as [lc| | |]; cbn [bind]; try reflexivity.
   destruct (fetch_chunk (v_rtrim v) 0 cs R) as [rc| | |]; cbn [bind]; try reflexivity.
-  cbv zeta. rewrite (main_loop_cnt_erase _ _ _ _ _ _ _ 0%nat 0%nat).
+  cbv zeta. rewrite (main_loop_cnt_erase _ _ _ _ _ _ _ 0%nat 0%nat 0%nat).
   match goal with |- bind (bind ?X _) _ = _ => destruct X as [[d1 c1]| | |] end; cbn [bind fst snd]; try reflexivity.
   destruct (v_left v).
   - rewrite (tail_loop_cnt_erase _ _ _ _ _ _ 0%nat 0%nat).
@@ -409,36 +577,57 @@ Qed.
 (* ---------------------------------------------------------------- (2) counting kernel steps *)
 Definition flag (s:fsm) : Z := if finner s then 0 else 1.
 
-Lemma krun_cnt_ok : forall fuel p la lb ra rb s ol orr O n0,
+Lemma refill_l_phi d d1 : refill_l k emit L cs d = Ok d1 -> phi (df d1) = phi (df d).
+Proof.
+  unfold refill_l. destruct ((i_off_ d + fi (df d) <? len L) && (snd (lch d) - fst (lch d) <=? fi (df d))).
+  - destruct (fetch_chunk (v_ltrim v) (snd (lch d)) cs L) as [c| | |]; cbn [bind]; try discriminate.
+    intros H. injection H as <-. reflexivity.
+  - intros H. injection H as <-. reflexivity.
+Qed.
+
+Lemma refill_r_phi d d1 : refill_r k emit R cs d = Ok d1 -> phi (df d1) = phi (df d).
+Proof.
+  unfold refill_r. destruct ((j_off_ d + fj (df d) <? len R) && (snd (rch d) - fst (rch d) <=? fj (df d))).
+  - destruct (fetch_chunk (v_rtrim v) (snd (rch d)) cs R) as [c| | |]; cbn [bind]; try discriminate.
+    intros H. injection H as <-. reflexivity.
+  - intros H. injection H as <-. reflexivity.
+Qed.
+
+Lemma flush_phi w d : phi (df (flush w d)) = phi (df d).
+Proof. unfold flush. destruct (0 <? fr (df d)); reflexivity. Qed.
+
+Lemma krun_cnt_ok : forall fuel p la lb ra rb s ol orr O n0 m0,
   Win k emit L R inv cs p la lb ra rb -> Buf cs s -> Pos p s -> LocK s ->
   AbsK (la + fi s) (ra + fj s) (sub_of s) O -> OutRel k emit ol orr s O ->
   Z.of_nat fuel > kmeas cs p s ->
-  exists s' O' n, krun_cnt fuel k emit p s n0 = Ok (s', (n0 + n)%nat) /\
+  exists s' O' n m, krun_cnt fuel k emit p s n0 m0 = Ok (s', ((n0 + n)%nat, (m0 + m)%nat)) /\
     Buf cs s' /\ Pos p s' /\
     AbsK (la + fi s') (ra + fj s') (sub_of s') O' /\ OutRel k emit ol orr s' O' /\
     (fi s' >= ki_max p \/ fj s' >= kj_max p \/ fr s' >= cs) /\
     fi s <= fi s' /\ fj s <= fj s' /\ fr s <= fr s' /\
     (fi s < ki_max p -> fj s < kj_max p -> fr s < cs ->
      fi s + fj s + fr s < fi s' + fj s' + fr s') /\
-    Z.of_nat n <= kmeas cs p s - kmeas cs p s'.
+    Z.of_nat n <= kmeas cs p s - kmeas cs p s' /\
+    Z.of_nat m <= (fr s' - fr s) + phi s' - phi s.
 Proof.
-  induction fuel as [|fuel IH]; intros p la lb ra rb s ol orr O n0 HW HB HP HL HA HO Hf.
+  induction fuel as [|fuel IH]; intros p la lb ra rb s ol orr O n0 m0 HW HB HP HL HA HO Hf.
   - pose proof (kmeas_nonneg cs p s HB HP). lia.
   - cbn [krun_cnt].
     destruct (kstep_ok k emit L R inv cs K p la lb ra rb s ol orr O HW HB HP HL HA HO)
       as [[E Hstop]|(s1 & O1 & E & HB1 & HP1 & HL1 & HA1 & HO1 & Hi1 & Hj1 & Hr1 & Hm1 & Hprog)].
-    + rewrite E. cbn [bind]. exists s, O, 0%nat. rewrite Nat.add_0_r.
+    + rewrite (kstep_cnt_none _ _ _ _ E). cbn [bind]. exists s, O, 0%nat, 0%nat. rewrite !Nat.add_0_r.
       splits; try assumption; try reflexivity; try lia.
-    + rewrite E. cbn [bind].
-      destruct (IH p la lb ra rb s1 ol orr O1 (S n0) HW HB1 HP1 HL1 HA1 HO1 ltac:(lia))
-        as (s' & O' & n & E' & HB' & HP' & HA' & HO' & Hstop' & Hi' & Hj' & Hr' & Hprog' & Hn).
-      exists s', O', (S n). split; [rewrite E'; do 2 f_equal; lia|]. splits; try assumption; try lia.
+    + destruct (kstep_cnt_some _ _ _ _ _ E) as (c & Ec). rewrite Ec. cbn [bind].
+      pose proof (kstep_cnt_cost _ _ _ _ _ _ Ec) as Hc.
+      destruct (IH p la lb ra rb s1 ol orr O1 (S n0) (m0 + c)%nat HW HB1 HP1 HL1 HA1 HO1 ltac:(lia))
+        as (s' & O' & n & m & E' & HB' & HP' & HA' & HO' & Hstop' & Hi' & Hj' & Hr' & Hprog' & Hn & Hm).
+      exists s', O', (S n), (c + m)%nat. split; [rewrite E'; do 3 f_equal; lia|]. splits; try assumption; try lia.
 Qed.
 
 Lemma main_iter_cnt_unfold d :
   main_iter_cnt v L R inv cs d =
   if (fi (df d) + i_off_ d <? len L) && (fj (df d) + j_off_ d <? len R) then
-    do sn <- krun_cnt (kfuel d cs) k emit (params_of inv d) (df d) 0;
+    do sn <- krun_cnt (kfuel d cs) k emit (params_of inv d) (df d) 0 0;
     do d1 <- refill_l k emit L cs (set_f d (fst sn));
     do d2 <- refill_r k emit R cs d1;
     Ok (Some (flush (v_writes_l v) d2, snd sn))
@@ -449,10 +638,11 @@ Proof. reflexivity. Qed.
 Lemma main_iter_cnt_ok d O : DInvK d O ->
   (main_iter_cnt v L R inv cs d = Raise E_ValueError /\ LongRun k emit L R cs) \/
   (main_iter_cnt v L R inv cs d = Ok None /\ (GI d = len L \/ GJ d = len R)) \/
-  (exists d' O' n, main_iter_cnt v L R inv cs d = Ok (Some (d', n)) /\ DInvK d' O' /\
+  (exists d' O' n m, main_iter_cnt v L R inv cs d = Ok (Some (d', (n, m))) /\ DInvK d' O' /\
      GI d <= GI d' /\ GJ d <= GJ d' /\ len O <= len O' /\
      1 <= (GI d' - GI d) + (GJ d' - GJ d) + (len O' - len O) /\
-     Z.of_nat n <= 2 * ((GI d' - GI d) + (GJ d' - GJ d) + (len O' - len O)) + 1).
+     Z.of_nat n <= 2 * ((GI d' - GI d) + (GJ d' - GJ d) + (len O' - len O)) + 1 /\
+     Z.of_nat m <= (len O' - len O) + phi (df d') - phi (df d)).
 Proof.
   intros (HM & Hr0 & HhL & HhR).
   pose proof (MidInv_bounds _ _ _ _ _ _ K d O HM) as (HI & HJ).
@@ -481,8 +671,8 @@ Proof.
   assert (HA0 : AbsK (fst (lch d) + fi (df d)) (fst (rch d) + fj (df d)) (sub_of (df d)) O).
   { destruct HW as (_ & Hio & _ & _ & Hjo & _). unfold params_of in Hio, Hjo. cbn [ki_off kj_off] in Hio, Hjo.
     unfold GI, GJ in HA. rewrite <- Hio, <- Hjo. exact HA. }
-  destruct (krun_cnt_ok (kfuel d cs) (params_of inv d) _ _ _ _ (df d) (outl d) (outr d) O 0%nat HW HB HP HLoc HA0 HO Hfuel)
-    as (s' & O' & n & E & HB' & HP' & HA' & HO' & Hstop & Hi' & Hj' & Hr' & Hprog & Hn).
+  destruct (krun_cnt_ok (kfuel d cs) (params_of inv d) _ _ _ _ (df d) (outl d) (outr d) O 0%nat 0%nat HW HB HP HLoc HA0 HO Hfuel)
+    as (s' & O' & n & m & E & HB' & HP' & HA' & HO' & Hstop & Hi' & Hj' & Hr' & Hprog & Hn & Hm).
   rewrite E. cbn [bind fst snd Nat.add].
   assert (Hprog' : fi (df d) + fj (df d) + fr (df d) < fi s' + fj s' + fr s').
   { apply Hprog; unfold params_of; cbn [ki_max kj_max]; lia. }
@@ -509,25 +699,30 @@ Proof.
   rewrite E2. cbn [bind].
   right. right.
   destruct (flush_ok k emit L R inv cs K Hcs _ _ HMd2 (HhL2 HhL1) HhR2) as (HD & HIf & HJf).
-  eexists _, O', n. split; [reflexivity|]. split; [exact HD|].
+  eexists _, O', n, m. split; [reflexivity|]. split; [exact HD|].
+  rewrite flush_phi, (refill_r_phi _ _ E2), (refill_l_phi _ _ E1).
+  change (phi (df (set_f d s'))) with (phi s').
   rewrite HIf, HJf, HI2, HJ2, HI1, HJ1, HGI1, HGJ1. unfold GI, GJ. splits; lia.
 Qed.
 
 (* the whole main loop, whatever the fuel: whenever it returns, the counters are bounded by the progress made *)
-Lemma main_loop_cnt_bound : forall fuel d O it ks d' it' ks',
-  DInvK d O -> main_loop_cnt fuel v L R inv cs d it ks = Ok (d', (it', ks')) ->
+Lemma main_loop_cnt_bound : forall fuel d O it ks sc d' it' ks' sc',
+  DInvK d O -> main_loop_cnt fuel v L R inv cs d it ks sc = Ok (d', (it', ks', sc')) ->
   exists O', DInvK d' O' /\ (GI d' = len L \/ GJ d' = len R) /\
     (it <= it')%nat /\ (ks <= ks')%nat /\ GI d <= GI d' /\ GJ d <= GJ d' /\ len O <= len O' /\
     Z.of_nat it' - Z.of_nat it <= (GI d' - GI d) + (GJ d' - GJ d) + (len O' - len O) /\
     Z.of_nat ks' - Z.of_nat ks <=
-      2 * ((GI d' - GI d) + (GJ d' - GJ d) + (len O' - len O)) + (Z.of_nat it' - Z.of_nat it).
+      2 * ((GI d' - GI d) + (GJ d' - GJ d) + (len O' - len O)) + (Z.of_nat it' - Z.of_nat it) /\
+    (sc <= sc')%nat /\
+    Z.of_nat sc' - Z.of_nat sc <= (len O' - len O) + phi (df d') - phi (df d).
 Proof.
-  induction fuel as [|fuel IH]; intros d O it ks d' it' ks' HD E; cbn [main_loop_cnt] in E; [discriminate|].
-  destruct (main_iter_cnt_ok d O HD) as [(Hr & _)|[(E0 & Hend)|(d1 & O1 & n & E1 & HD1 & HI1 & HJ1 & HO1 & Hp1 & Hn1)]].
+  induction fuel as [|fuel IH]; intros d O it ks sc d' it' ks' sc' HD E; cbn [main_loop_cnt] in E; [discriminate|].
+  destruct (main_iter_cnt_ok d O HD)
+    as [(Hr & _)|[(E0 & Hend)|(d1 & O1 & n & m & E1 & HD1 & HI1 & HJ1 & HO1 & Hp1 & Hn1 & Hm1)]].
   - rewrite Hr in E. discriminate.
-  - rewrite E0 in E. cbn [bind] in E. injection E as <- <- <-. exists O. splits; try assumption; lia.
+  - rewrite E0 in E. cbn [bind] in E. injection E as <- <- <- <-. exists O. splits; try assumption; lia.
   - rewrite E1 in E. cbn [bind] in E.
-    destruct (IH _ O1 _ _ _ _ _ HD1 E) as (O' & HD' & Hend & H1 & H2 & H3 & H4 & H5 & H6 & H7).
+    destruct (IH _ O1 _ _ _ _ _ _ _ HD1 E) as (O' & HD' & Hend & H1 & H2 & H3 & H4 & H5 & H6 & H7 & H8 & H9).
     exists O'. splits; try assumption; lia.
 Qed.
 
@@ -541,7 +736,8 @@ Qed.
 Theorem streamed_cnt_bound out c :
   streamed_cnt v L R inv cs = Ok (out, c) ->
   Z.of_nat (c_calls c) + Z.of_nat (c_tail c) <= len L + len R + len SPEC /\
-  Z.of_nat (c_ksteps c) + Z.of_nat (c_rsteps c) <= 2 * (len L + len R + len SPEC) + Z.of_nat (c_calls c).
+  Z.of_nat (c_ksteps c) + Z.of_nat (c_rsteps c) <= 2 * (len L + len R + len SPEC) + Z.of_nat (c_calls c) /\
+  Z.of_nat (c_scan c) <= len SPEC.
 Proof.
   unfold streamed_cnt.
   pose proof (len_nonneg L) as HLn. pose proof (len_nonneg R) as HRn.
@@ -554,14 +750,26 @@ Proof.
   pose proof (DInv_init lb ldata rb rdata HckL HckR) as HD0. cbn zeta in HD0.
   set (buf := repeat 0 (Z.to_nat cs)) in *.
   set (d0 := mkdrv (mkfsm 0 0 0 0 0 (-1) (-1) false buf buf) (0, lb) ldata (lb - 0) 0 (0, rb) rdata (rb - 0) 0 [] []) in *.
-  destruct (main_loop_cnt (driver_fuel L R) v L R inv cs d0 0 0) as [[d1 [it ks]]| | |] eqn:E1;
+  destruct (main_loop_cnt (driver_fuel L R) v L R inv cs d0 0 0 0) as [[d1 [[it ks] sc]]| | |] eqn:E1;
     cbn [bind fst snd]; try discriminate.
-  destruct (main_loop_cnt_bound _ d0 [] _ _ _ _ _ HD0 E1) as (O1 & HD1 & Hend & _ & _ & HI & HJ & _ & Hit & Hks).
+  destruct (main_loop_cnt_bound _ d0 [] _ _ _ _ _ _ _ HD0 E1)
+    as (O1 & HD1 & Hend & _ & _ & HI & HJ & _ & Hit & Hks & _ & Hsc).
   assert (HGI0 : GI d0 = 0) by reflexivity. assert (HGJ0 : GJ d0 = 0) by reflexivity.
-  change (len (@nil (Z * Z))) with 0 in Hit, Hks. rewrite HGI0, HGJ0 in *. cbn [Z.of_nat] in Hit, Hks.
+  assert (Hphi0 : phi (df d0) = 0) by reflexivity.
+  change (len (@nil (Z * Z))) with 0 in Hit, Hks, Hsc. rewrite HGI0, HGJ0 in *. rewrite Hphi0 in Hsc.
+  cbn [Z.of_nat] in Hit, Hks, Hsc.
   pose proof HD1 as (HM1 & Hr1 & HhL1 & HhR1).
   pose proof (MidInv_bounds _ _ _ _ _ _ K d1 O1 HM1) as (HI1 & HJ1).
   pose proof (MidInv_prefix d1 O1 HM1) as HO1.
+  assert (Hinn1 : finner (df d1) = false).
+  { destruct (finner (df d1)) eqn:Ein; [|reflexivity].
+    destruct HM1 as (HW1 & _ & HP1 & _).
+    destruct HP1 as (Hpi & Hpj & Hpinn). specialize (Hpinn Ein).
+    destruct HW1 as (_ & Hio & Him & HcL & Hjo & Hjm & HcR).
+    destruct HcL as (? & ? & ? & _). destruct HcR as (? & ? & ? & _).
+    unfold params_of in *. cbn [ki_off ki_max kj_off kj_max] in *. unfold GI, GJ in *. lia. }
+  assert (Hphi1 : phi (df d1) = 0) by (unfold phi; rewrite Hinn1; reflexivity).
+  rewrite Hphi1 in Hsc.
   cbn [v_left].
   assert (Htail : forall b:bool, (b = true -> emit = true) -> forall x2,
             (if b then tail_loop_cnt (S (S (length L))) v L inv cs d1 0 0 else Ok (d1, (0%nat, 0%nat))) = Ok x2 ->
@@ -570,12 +778,6 @@ Proof.
     specialize (Hb eq_refl). cbn [fst snd].
     (* len SPEC = len O1 + (len L - GI d1) *)
     pose proof HM1 as (HW1 & HB1 & HP1 & HA1 & _).
-    assert (Hinn1 : s_inner (sub_of (df d1)) = false).
-    { cbn [sub_of s_inner]. destruct (finner (df d1)) eqn:Ein; [|reflexivity].
-      destruct HP1 as (Hpi & Hpj & Hpinn). specialize (Hpinn Ein).
-      destruct HW1 as (_ & Hio & Him & HcL & Hjo & Hjm & HcR).
-      destruct HcL as (? & ? & ? & _). destruct HcR as (? & ? & ? & _).
-      unfold params_of in *. cbn [ki_off ki_max kj_off kj_max] in *. unfold GI, GJ in *. lia. }
     pose proof (Abs_final k emit L R inv cs K _ _ _ _ HA1 Hinn1 HI1 HJ1 Hend) as Hfinal.
     rewrite Hb in Hfinal at 1.
     assert (Hlen : len SPEC = len O1 + (len L - GI d1)).
@@ -587,7 +789,7 @@ Proof.
     cbn [Z.of_nat] in Ht, Hrs. lia. }
   match goal with |- (do x2 <- ?X; _) = _ -> _ => destruct X as [x2| | |] eqn:E2 end; cbn [bind]; try discriminate.
   destruct (Htail emit (fun H => H) x2 E2) as (Ht & Hrs).
-  intros Eq. injection Eq as _ <-. cbn [c_calls c_ksteps c_tail c_rsteps]. lia.
+  intros Eq. injection Eq as _ <-. cbn [c_calls c_ksteps c_scan c_tail c_rsteps]. lia.
 Qed.
 
 End Steps.
